@@ -45,6 +45,9 @@ def replay_ecdsa_toy(ctx, tables):
             continue
         with toy(p, a, b, n, g) as pecc:
             if mode == "ecdsa":
+                if not callable(getattr(pecc.PrivateKey, "deterministic_k", None)):
+                    from ..core import MachineryError
+                    raise MachineryError("PrivateKey.deterministic_k is gone: the toy sign replay (nonce taken from the table) does not apply to this tree")
                 for r in tab["rows"]:
                     d, z, k = r["d"], r["z"], r["k"]
                     pk = pecc.PrivateKey(d)
